@@ -1,4 +1,5 @@
 mod common;
+mod st;
 mod wal;
 
 fn main() {
@@ -6,6 +7,7 @@ fn main() {
     common::quiet_panics();
     let out = match args.prop.as_str() {
         "C01" => wal::run(&args),
+        "C04" | "C06" => st::run(&args),
         p => {
             eprintln!("unknown property {p}");
             std::process::exit(2);
